@@ -65,6 +65,9 @@ fn render(m: &Module, mods: &[String]) -> String {
 struct Project {
     root: Module,
     subs: Vec<Module>,
+    /// a module file that exists on disk from the start but is only declared (`pub mod delta;`) by an edit of the root
+    extra: Module,
+    extra_declared: bool,
     /// (importer, imported) sibling pairs
     sibling_imports: Vec<(usize, usize)>,
 }
@@ -82,6 +85,11 @@ fn gen_project(rng: &mut Rng, warn_class: bool) -> Project {
         ];
         if rng.chance(1, 2) {
             items.push(Item::Fn { name: format!("{n}_f1"), ret_bool: false, body: format!("{n}_f0()") });
+        }
+        // class W: a module that carries a warning of its own (non-idiomatic name) — modules served from the
+        // cache lose their diagnostics after an edit elsewhere (known finding C26-K2)
+        if warn_class && i == 0 {
+            items.push(Item::Fn { name: format!("{n}_NotSnake"), ret_bool: false, body: "1".into() });
         }
         subs.push(Module { name: n.to_string(), uses: vec![], items, broken: false, blank_lines: 0 });
     }
@@ -108,13 +116,14 @@ fn gen_project(rng: &mut Rng, warn_class: bool) -> Project {
         body = format!("__add({body}, {}_f0())", sm.name);
     }
     root.items.push(Item::Fn { name: "top".into(), ret_bool: false, body });
-    Project { root, subs, sibling_imports }
+    let extra = Module { name: "delta".into(), uses: vec![], items: vec![Item::Fn { name: "delta_f0".into(), ret_bool: false, body: "4321".into() }, Item::Const { name: "K_DELTA".into(), val: 9 }], broken: false, blank_lines: 0 };
+    Project { root, subs, sibling_imports, extra, extra_declared: false }
 }
 
 /// One edit of module `mi` (usize::MAX = root). Returns a label for traces.
 fn mutate(rng: &mut Rng, m: &mut Module, counter: &mut usize) -> String {
     loop {
-        match rng.below(11) {
+        match rng.below(13) {
             0 => {
                 *counter += 1;
                 let nm = format!("{}_new{}", m.name, *counter);
@@ -189,6 +198,21 @@ fn mutate(rng: &mut Rng, m: &mut Module, counter: &mut usize) -> String {
                     return "change a constant".into();
                 }
             }
+            10 => {
+                // a same-length edit that changes the meaning: a 4-digit literal becomes `true` (type error in a
+                // u64 function) or back — length and line structure of the file stay exactly the same
+                let fns: Vec<usize> = m.items.iter().enumerate().filter(|(_, i)| matches!(i, Item::Fn { body, .. } if body == "true" || (body.len() == 4 && body.chars().all(|c| c.is_ascii_digit())))).map(|(k, _)| k).collect();
+                if let Some(&k) = fns.get(rng.below(fns.len().max(1))) {
+                    if let Item::Fn { body, .. } = &mut m.items[k] {
+                        *body = if body == "true" { format!("{}", 1000 + rng.below(9000)) } else { "true".to_string() };
+                        return "same-length edit (4-digit literal <-> true)".into();
+                    }
+                } else {
+                    *counter += 1;
+                    m.items.push(Item::Fn { name: format!("{}_lit{}", m.name, *counter), ret_bool: false, body: format!("{}", 1000 + rng.below(9000)) });
+                    return "add a fn with a 4-digit literal".into();
+                }
+            }
             _ => {
                 let fns: Vec<usize> = m.items.iter().enumerate().filter(|(_, i)| matches!(i, Item::Fn { body, .. } if body.chars().all(|c| c.is_ascii_digit()))).map(|(k, _)| k).collect();
                 if let Some(&k) = fns.get(rng.below(fns.len().max(1))) {
@@ -205,11 +229,20 @@ fn mutate(rng: &mut Rng, m: &mut Module, counter: &mut usize) -> String {
 fn gen(rng: &mut Rng, _sub: u64) -> Workload {
     let warn_class = rng.chance(1, 12);
     let mut p = gen_project(rng, warn_class);
-    let sub_names: Vec<String> = p.subs.iter().map(|m| m.name.clone()).collect();
-    let mut files = vec![("src/lib.sw".to_string(), render(&p.root, &sub_names))];
+    let base_names: Vec<String> = p.subs.iter().map(|m| m.name.clone()).collect();
+    let mod_names = |p: &Project| -> Vec<String> {
+        let mut v = base_names.clone();
+        if p.extra_declared {
+            v.push("delta".into());
+        }
+        v
+    };
+    let mut files = vec![("src/lib.sw".to_string(), render(&p.root, &mod_names(&p)))];
     for m in &p.subs {
         files.push((format!("src/{}.sw", m.name), render(m, &[])));
     }
+    files.push(("src/delta.sw".to_string(), render(&p.extra, &[])));
+    let delta_doc = files.len() - 1;
     let mut events = vec![Ev::Open { doc: 0 }];
     for d in 1..files.len() {
         if rng.chance(2, 3) {
@@ -230,12 +263,20 @@ fn gen(rng: &mut Rng, _sub: u64) -> Workload {
     for _ in 0..n {
         // which document: 0 = root, k = sub k-1
         let mut doc = if single_doc { the_doc } else { rng.below(files.len()) };
-        if !class_t && doc >= 1 && imported.contains(&(doc - 1)) {
+        if !class_t && doc >= 1 && doc != delta_doc && imported.contains(&(doc - 1)) {
             doc = 0;
         }
         let text = if doc == 0 {
-            mutate(rng, &mut p.root, &mut counter);
-            render(&p.root, &sub_names)
+            if rng.chance(1, 5) {
+                // module-tree edit: declare / undeclare the extra module
+                p.extra_declared = !p.extra_declared;
+            } else {
+                mutate(rng, &mut p.root, &mut counter);
+            }
+            render(&p.root, &mod_names(&p))
+        } else if doc == delta_doc {
+            mutate(rng, &mut p.extra, &mut counter);
+            render(&p.extra, &[])
         } else {
             mutate(rng, &mut p.subs[doc - 1], &mut counter);
             render(&p.subs[doc - 1], &[])
